@@ -30,9 +30,25 @@ def updatePool_guard_1 (height : Int) (pool_LastHeightDistrRewards : Int) : Opti
 def updatePool_guard_2 (read_len_rules : Int) : Option (Bool) := do
   some (read_len_rules == (0 : Int))
 
+/-- branch condition: `height > pool.LastHeightDistrRewards && pool.TotalLptLocked.Amount.GT(math.ZeroInt())` -/
+def updatePool_cond_3 (height : Int) (pool_LastHeightDistrRewards : Int) (pool_TotalLptLocked : Coin) : Option (Bool) := do
+  some ((decide (height > pool_LastHeightDistrRewards)) && (Int_GT pool_TotalLptLocked.amount ZeroInt))
+
 /-- rejects when true: `rules[i].RemainingReward.LT(rewardCollected)` -/
-def updatePool_guard_3 (rules_i_RemainingReward : Int) (rewardCollected : Int) : Option (Bool) := do
+def updatePool_guard_4 (rules_i_RemainingReward : Int) (rewardCollected : Int) : Option (Bool) := do
   some (Int_LT rules_i_RemainingReward rewardCollected)
+
+/-- branch condition: `rewardTotal.IsAllPositive()` -/
+def updatePool_cond_5 (read_rewardTotal_IsAllPositive : Bool) : Option (Bool) := do
+  some read_rewardTotal_IsAllPositive
+
+/-- branch condition: `isDestroy` -/
+def updatePool_cond_6 (isDestroy : Bool) : Option (Bool) := do
+  some isDestroy
+
+/-- branch condition: `pool.StartHeight > pool.EndHeight` -/
+def updatePool_cond_7 (pool_StartHeight : Int) (pool_EndHeight : Int) : Option (Bool) := do
+  some (decide (pool_StartHeight > pool_EndHeight))
 
 def CaclRewards_pendingRewardTotal_1 (r_RewardPerShare : Dec) (farmInfo_Locked : Int) : Option (Int) := do
   let t1 ← Dec_MulInt r_RewardPerShare farmInfo_Locked
@@ -53,10 +69,14 @@ def CaclRewards_debt_1 (r_Reward : String) (r_RewardPerShare : Dec) (locked : In
   let t3 ← NewCoin r_Reward t2
   some t3
 
+/-- branch condition: `farmInfo.Locked.GT(sdkmath.ZeroInt())` -/
+def CaclRewards_cond_1 (farmInfo_Locked : Int) : Option (Bool) := do
+  some (Int_GT farmInfo_Locked ZeroInt)
+
 /-- targets the translator refused, with the reason (must be empty) -/
 def untranslated : List String := []
 
 /-- names of the translated definitions -/
-def translated : List String := ["updatePool_blockInterval_1", "updatePool_rewardCollected_1", "updatePool_newRewardPerShare_1", "updatePool_rules_i_RewardPerShare_1", "updatePool_rules_i_RemainingReward_1", "updatePool_guard_1", "updatePool_guard_2", "updatePool_guard_3", "CaclRewards_pendingRewardTotal_1", "CaclRewards_pendingReward_1", "CaclRewards_locked_1", "CaclRewards_debt_1"]
+def translated : List String := ["updatePool_blockInterval_1", "updatePool_rewardCollected_1", "updatePool_newRewardPerShare_1", "updatePool_rules_i_RewardPerShare_1", "updatePool_rules_i_RemainingReward_1", "updatePool_guard_1", "updatePool_guard_2", "updatePool_cond_3", "updatePool_guard_4", "updatePool_cond_5", "updatePool_cond_6", "updatePool_cond_7", "CaclRewards_pendingRewardTotal_1", "CaclRewards_pendingReward_1", "CaclRewards_locked_1", "CaclRewards_debt_1", "CaclRewards_cond_1"]
 
 end Irismod.Gen.PureFarm
